@@ -417,6 +417,9 @@ func (p *streamPool) getOrOpenStream() (*Stream, error) {
 				return stream, nil
 			}
 		}
+		// the pool owned this stream: one that the peer closed meanwhile (or whose session is
+		// gone) must be closed, otherwise it stays registered in its session forever
+		stream.Close()
 	}
 
 	stream, err := p.Session().OpenStream()
